@@ -190,7 +190,7 @@ func c16Scenario(c *Ctx, idx int, r *Rng) (mline, mimpl, mcase string) {
 	_ = committedSinceEdit
 	for op := 0; op < nops; op++ {
 		f := Pick(r, lockables)
-		switch r.Intn(14) {
+		switch r.Intn(15) {
 		case 0, 1, 2: // lock
 			mode := srvMode()
 			out, code := w.runLfs("lock", f)
@@ -237,6 +237,52 @@ func c16Scenario(c *Ctx, idx int, r *Rng) (mline, mimpl, mcase string) {
 			} else if table()[f] == "alice" && mode == "ok" && !strings.Contains(out, "already") {
 				_ = out
 			}
+		case 14: // ONE command over several paths: some succeed, some are refused — the command exits 2
+			var paths []string
+			for _, pth := range lockables {
+				if r.Chance(50) {
+					paths = append(paths, pth)
+				}
+			}
+			if len(paths) < 2 {
+				continue
+			}
+			srv.mu.Lock()
+			srv.lockMode, srv.user = "ok", "alice"
+			srv.mu.Unlock()
+			if r.Bool() {
+				_, code := w.runLfs(append([]string{"lock"}, paths...)...)
+				log("lock %q -> %d", paths, code)
+				for k, pth := range paths {
+					op := fmt.Sprintf("L:%d:ok", pidx[pth])
+					if k < len(paths)-1 {
+						op = "q" + op
+					}
+					mops = append(mops, op)
+				}
+				c.R.Count("multi-path.lock")
+			} else {
+				var held []string
+				for _, pth := range paths {
+					if !modified[pth] {
+						held = append(held, pth)
+					}
+				}
+				if len(held) < 2 {
+					continue
+				}
+				_, code := w.runLfs(append([]string{"unlock"}, held...)...)
+				log("unlock %q -> %d", held, code)
+				for k, pth := range held {
+					op := fmt.Sprintf("U:%d:0:0:ok", pidx[pth])
+					if k < len(held)-1 {
+						op = "q" + op
+					}
+					mops = append(mops, op)
+				}
+				c.R.Count("multi-path.unlock")
+			}
+			observe()
 		case 3, 4: // unlock by path
 			force := r.Chance(20)
 			heldBefore := table()[f]
